@@ -772,6 +772,7 @@ func (h *harnessRun) runPath(script []int, solver *Solver) (newWork [][]int) {
 		timers:    make(map[*value]bool),
 		syncMaps:  make(map[*value]*omap),
 		wg:        make(map[*value]int),
+		built:     make(map[*ssa.Package]bool),
 		natives:   make(map[string]value),
 		trace:     e.Trace,
 		funcsSeen: make(map[*ssa.Function]bool),
